@@ -229,6 +229,11 @@ func (fv *FuncVC) havoc(ms *modSet, tag string) {
 		fv.assert(smtAnd(app("=", fv.lenOf(n), fv.lenOf(cur)), app("=", fv.offOf(n), fv.offOf(cur)), app("=", fv.capOf(n), fv.capOf(cur)), app("=", fv.baseOf(n), fv.baseOf(cur))))
 		st.slices[v] = n
 	}
+	// the global order of logged calls only advances
+	os := fv.ghostTerm(st, "seq", SMath)
+	ns := fv.fresh("G_seq_"+tag, SMath)
+	fv.assert(app(">=", ns.S, os.S))
+	st.ghost["seq"] = ns
 	// allocation counter only grows
 	oa := fv.ghostTerm(st, "alloc", SMath)
 	na := fv.fresh("G_alloc_"+tag, SMath)
